@@ -451,6 +451,14 @@ SCENARIOS = [sc_exit_zombie_waitpid, sc_exit_zombie_poll, sc_signal_default,
 
 def run(verbose=True):
     bad = 0
+    import signal as _signal
+    # started as a background job of a shell without job control, SIGINT and
+    # SIGQUIT arrive ignored and the real children would inherit that: give
+    # them the default disposition the scenarios are about
+    for _s, _h in ((_signal.SIGINT, _signal.default_int_handler),
+                   (_signal.SIGQUIT, _signal.SIG_DFL)):
+        if _signal.getsignal(_s) == _signal.SIG_IGN:
+            _signal.signal(_s, _h)
     for sc in SCENARIOS:
         rb = RealBackend()
         try:
